@@ -213,6 +213,10 @@ func (ds *DataStoreSet) UpdateFull(ctx context.Context, tables []TableName) (err
 		return
 	}
 	peer := ds.peer
+	if peer.data.Load() == nil {
+		// a failed connection attempt during this update hit the stale timeout and dropped the cache
+		return &PeerError{msg: "cache has been dropped during update, recreating objects", kind: RestartRequiredError}
+	}
 	duration := time.Since(time1)
 	peerState := peer.peerState.Get()
 	switch peerState {
@@ -295,6 +299,10 @@ func (ds *DataStoreSet) UpdateDelta(ctx context.Context, from, until float64) (e
 	}
 
 	peer := ds.peer
+	if peer.data.Load() == nil {
+		// a failed connection attempt during this update hit the stale timeout and dropped the cache
+		return &PeerError{msg: "cache has been dropped during update, recreating objects", kind: RestartRequiredError}
+	}
 	duration := time.Since(time1)
 	logWith(peer).Debugf("delta update complete in: %s", duration.Truncate(time.Millisecond).String())
 
